@@ -161,7 +161,7 @@ PROPS = {
                          "RModel.Impl.frozenView_no_panic", "RModel.BSet.canon_ext"] + F_SERIAL,
             "modules": DEFAULT_MODULES + [FACTS, "RProofs.Properties.C09", "RProofs.Properties.C05", "RProofs.Properties.C13"], "owns": None},
     "C11": {"suites": [("agg", 1.0), ("kernspecial", 0.6), ("l2agg", 0.7), ("l2par", 0.5)], "theorems": L1_AGG + L1_ALGEBRA + L2_AGG + PINS + L2_PAR[:8],
-            "modules": DEFAULT_MODULES + ["RProofs.Agg", "RProofs.LazyOps", PINS_MOD, "RProofs.ParData"], "owns": set(AGG_OPS) | {"kern", "l2agg", "l2lazy", "l2par"}},
+            "modules": DEFAULT_MODULES + ["RProofs.Agg", "RProofs.LazyOps", PINS_MOD, "RProofs.ParData"], "owns": set(AGG_OPS) | {"kern", "l2agg", "l2lazy", "l2par", "aggmany"}},
     # C12: schedule independence / termination / no leak (sched), concurrent decoding through the pools (concdec); the
     # protocol theorems are about the transition systems of Impl/Par.lean, pinned to the source by the skeleton obligations
     "C12": {"suites": [("sched", 1.0), ("l2par", 0.5)], "theorems": PAR + L1_AGG[:3] + L2_PAR,
